@@ -13,13 +13,13 @@ type simTime struct{ now time.Time }
 //go:norace
 func (s *simTime) Now() time.Time { return s.now }
 
-func (s *simTime) Sleep(time.Duration)                       { panic("simclock: Sleep") }
-func (s *simTime) After(time.Duration) <-chan time.Time      { panic("simclock: After") }
-func (s *simTime) NewTimer(time.Duration) Timer              { panic("simclock: NewTimer") }
-func (s *simTime) AfterFunc(time.Duration, func()) Timer     { panic("simclock: AfterFunc") }
-func (s *simTime) NewTicker(time.Duration) Ticker            { panic("simclock: NewTicker") }
-func (s *simTime) Tick(time.Duration) <-chan time.Time       { panic("simclock: Tick") }
-func (s *simTime) Wait4Scheduled(int, time.Duration) bool    { panic("simclock: Wait4Scheduled") }
+func (s *simTime) Sleep(time.Duration)                    { panic("simclock: Sleep") }
+func (s *simTime) After(time.Duration) <-chan time.Time   { panic("simclock: After") }
+func (s *simTime) NewTimer(time.Duration) Timer           { panic("simclock: NewTimer") }
+func (s *simTime) AfterFunc(time.Duration, func()) Timer  { panic("simclock: AfterFunc") }
+func (s *simTime) NewTicker(time.Duration) Ticker         { panic("simclock: NewTicker") }
+func (s *simTime) Tick(time.Duration) <-chan time.Time    { panic("simclock: Tick") }
+func (s *simTime) Wait4Scheduled(int, time.Duration) bool { panic("simclock: Wait4Scheduled") }
 
 var simClock *simTime
 
